@@ -232,6 +232,7 @@ impl AsyncWrite for PipeW {
         ACTIVITY.fetch_add(1, Ordering::Relaxed);
         let mut s = self.0.lock();
         s.calls += 1;
+        let from_plan = !s.plan.is_empty();
         let ans = match s.plan.pop_front() {
             Some(a) => a,
             None => match &s.mode {
@@ -249,7 +250,13 @@ impl AsyncWrite for PipeW {
                 Poll::Ready(Ok(n))
             }
             WAns::Pending => {
-                s.waker = Some(cx.waker().clone());
+                // a planned Pending is transient back-pressure: writable again at the next poll.
+                // Only the Stall MODE keeps the waker without firing it.
+                if from_plan {
+                    cx.waker().wake_by_ref();
+                } else {
+                    s.waker = Some(cx.waker().clone());
+                }
                 Poll::Pending
             }
             WAns::Err(k) => Poll::Ready(Err(io::Error::new(k, "scripted write error"))),
